@@ -400,6 +400,35 @@ def run(ctx):
                                   '(got, expected) by observation point: %r; profile by profile: %r' % (bad, per), KNOWN_PRED)
     finally:
         P.defaultProfiles = None
+    # every context other than @font-face gives a declaration the verdict it has in a style rule
+    CTX = ['a{%s}', '@page{%s}', '@page :left{%s}', '@page{@top-left{%s}}', '@media tv{a{%s}}', '@media tv{@media print{a{%s}}}', '@media tv{@page{%s}}']
+    for n_, v_ in [('opacity', '0.5'), ('border-top-style', 'solid'), ('border-left-color', 'red'), ('cursor', 'pointer'), ('outline-color', 'red'),
+                   ('overflow-x', 'hidden'), ('margin', '1cm'), ('size', 'a4'), ('color', 'red'), ('color', '4'), ('text-shadow', '1px 1px red'),
+                   ('x-unknown', '1'), ('box-sizing', 'border-box')] + [(rng.choice(names), rng.choice(pool)) for _ in range(20 if quick else 400)]:
+        got = {}
+
+        def first_prop(rules):
+            for r_ in rules:
+                st_ = getattr(r_, 'style', None)
+                if st_ is not None and st_.length:
+                    return st_.getProperties(all=True)[0]
+                if r_.type in (r_.MEDIA_RULE, r_.PAGE_RULE):
+                    p_ = first_prop(r_.cssRules)
+                    if p_ is not None:
+                        return p_
+            return None
+        for tmpl in CTX:
+            ctx.case(('context', tmpl, n_, v_))
+            try:
+                sh = cssutils.parseString(tmpl % ('%s:%s' % (n_, v_)))
+                p_ = first_prop(sh.cssRules)
+                if p_ is not None:
+                    got[tmpl] = (p_.valid, sh.valid)
+            except Exception as e:
+                ctx.violation('raises', {'name': n_, 'value': v_, 'context': tmpl}, '%s: %s' % (type(e).__name__, e), KNOWN_PRED)
+        if len(set(got.values())) > 1:
+            ctx.violation('verdict-depends-on-spelling-or-path', {'name': n_, 'value': v_, 'family': 'context'},
+                          '(declaration valid, sheet valid) by context: %r' % got, KNOWN_PRED)
     for v, exp in (('url(x.ttf)', True), ('red', False)):
         s = cssutils.parseString('@font-face{src:%s} a{src:%s}' % (v, v))
         ctx.case(('fontface', v))
